@@ -22,7 +22,7 @@ LEVEL_TEXT = {
     "C10": "All traces over the alphabets run on 229 RC5 instantiations, 10 Speck, 3 Threefish (with tweaks, both APIs) and GIFT-128 and on vector-anchored reference models.",
     "C11": "The length axis 0..=300 (+1024, 4096) is enumerated completely for every type; constructor equivalences on the key alphabets.",
     "C12": "All construction/conversion/clone/drop histories up to the depth bound are explored (stateright BFS) on the real types in every native configuration, each live instance compared with the reference after every step.",
-    "C14": "All bcrypt call histories up to the depth bound are explored (stateright BFS) on the real Blowfish state machine; the whole state is compared with the eksblowfish reference after every step.",
+    "C14": "All bcrypt call histories up to the depth bound are explored (stateright BFS) on the real Blowfish state machine; the whole state is compared with the eksblowfish reference after every step; every salt and key length 1..=80 is swept from three start states.",
     "C15": "All multi-instance call histories up to the depth bound (stateright BFS) and all thread interleavings of the detection-cache harnesses (loom, unbounded) are explored on the real code; every ordered pair (key, neighbour key) of the declared neighbour set is driven through a fixed two-instance history against the model; no call writes the instance or static storage.",
     "C13": "The predicate model of the statement (AES upper half zero; NIST list modulo parity; part equality modulo parity) is compared with weak_key_test/new_checked on a key set containing every positive class and its one-bit neighbours.",
     "C16": "For every type, route and configuration the storage of the instance is observed before and after drop; all key-dependent live bytes must be zero.",
